@@ -395,14 +395,28 @@ impl std::fmt::Display for NodeConstErr {
 
 impl Error for NodeConstErr {}
 
+// Number of bits of the field modulus: shifts are defined on that many bits
+const M_BITS: usize = 254;
+
 fn compute_shl_uint(a: U256, b: U256) -> U256 {
-    debug_assert!(b.lt(&U256::from(256)));
+    if b.ge(&U256::from(M_BITS)) {
+        return U256::ZERO;
+    }
     let ls_limb = b.as_limbs()[0];
-    a.shl(ls_limb as usize)
+    // keep the low M_BITS bits of the shifted value and reduce it modulo M
+    let mask = (U256::from(1) << M_BITS) - U256::from(1);
+    let r = a.shl(ls_limb as usize) & mask;
+    if r >= M {
+        r - M
+    } else {
+        r
+    }
 }
 
 fn compute_shr_uint(a: U256, b: U256) -> U256 {
-    debug_assert!(b.lt(&U256::from(256)));
+    if b.ge(&U256::from(M_BITS)) {
+        return U256::ZERO;
+    }
     let ls_limb = b.as_limbs()[0];
     a.shr(ls_limb as usize)
 }
